@@ -389,6 +389,28 @@ func c09Specs(tier string) []c09Spec {
 			return If(Var("b0", TBool), sumTreeNode(n-3, vone), Lit(int64(0)))
 		})
 	}
+	// list literals are one node however long they are: far more tokens than nodes, all within the limits
+	listSizes := []int{32767, 32768, 70000, 98303, 98304, 150000}
+	if tier == "thorough" {
+		listSizes = []int{255, 256, 32766, 32767, 32768, 32769, 65535, 65536, 65537, 98300, 98301, 98302, 98303, 98304, 98305, 131072, 150000, 300000}
+	}
+	for _, n := range listSizes {
+		n := n
+		heavy(fmt.Sprintf("list-literal/in/%d", n), 0, []int{0, 1}, func() *Node {
+			l := make([]int64, n)
+			for i := range l {
+				l[i] = int64(i) * 3
+			}
+			return Op("in", TBool, Op("+", TInt, Var("i0", TInt), Lit(int64(3*(n-1)-1))), Lit(l)) // i0 = 1: the last element
+		})
+		heavy(fmt.Sprintf("list-literal/overlap/%d", n), 0, []int{0}, func() *Node {
+			l := make([]string, n)
+			for i := range l {
+				l[i] = fmt.Sprintf("e%d", i)
+			}
+			return Op("overlap", TBool, Lit([]string{"x", fmt.Sprintf("e%d", n-1)}), Lit(l))
+		})
+	}
 	c09Cache[tier] = specs
 	return specs
 }
